@@ -537,6 +537,27 @@ func useTemplates() []Tmpl {
 		n := &Node{Pre: []*Line{b.line("_ = "+pf+"(", &Use{Kind: UFuncRef, Fn: env.Pass, Call: true}, &Use{Kind: UMethodRef, Fn: env.Reset}), b.line("\t"+pf+"(", &Use{Kind: UFuncRef, Fn: env.Pass, Call: true}), b.line("\t\t"+c+",", u), b.line("\t),"), b.line(")." + env.Reset.Name)}}
 		return []*Node{n}
 	}})
+	// methods reached through struct embedding (promoted): still a call of / a reference to the annotated method
+	ts = append(ts, Tmpl{Name: "promoted-method-through-embedding", Cat: PKGO, Kind: "struct", Decl: true, OnlyU: true, Make: func(b *B, t *Type, env *Env) []*Node {
+		on, opn := b.d("outer"), b.d("outerp")
+		d1 := &Node{Pre: []*Line{b.line("type " + on + " struct {")}, Kids: []*Node{b.tstmt("%T", refT(t, SubField))}, Post: []*Line{b.line("}")}}
+		d2 := &Node{Pre: []*Line{b.line("type " + opn + " struct {")}, Kids: []*Node{b.tstmt("*%T", refT(t, SubField))}, Post: []*Line{b.line("}")}}
+		fn := &Node{Fn: &Func{Name: b.d("viaEmbed")}}
+		fn.Pre = []*Line{b.line("func " + fn.Fn.Name + "() {")}
+		c, u := callNew(t, env)
+		x, y, z := b.v(), b.v(), b.v()
+		fn.Kids = []*Node{
+			b.stmt("var " + x + " " + on),
+			b.stmt(x+"."+env.Reset.Name+"()", &Use{Kind: UMethodRef, Fn: env.Reset, Call: true, Feature: "promoted-method"}),
+			b.stmt(x+"."+env.Val.Name+"()", &Use{Kind: UMethodRef, Fn: env.Val, Call: true, Feature: "promoted-method"}),
+			b.stmt(y+" := "+opn+"{"+t.Name+": "+c+"}", u),
+			b.stmt(y+"."+env.Reset.Name+"()", &Use{Kind: UMethodRef, Fn: env.Reset, Call: true, Feature: "promoted-method"}),
+			b.stmt(z+" := "+y+"."+env.Val.Name, &Use{Kind: UMethodRef, Fn: env.Val, Feature: "promoted-method"}),
+			b.stmt(z + "()"),
+		}
+		fn.Post = []*Line{b.line("}")}
+		return []*Node{d1, d2, fn}
+	}})
 	// type mentions in declarations
 	ts = append(ts, Tmpl{Name: "decl-param", Cat: TONL, Decl: true, Make: func(b *B, t *Type, env *Env) []*Node {
 		n := &Node{Fn: &Func{Name: b.d("fp")}}
